@@ -5,6 +5,7 @@ from harness.wire import Exn
 PROP = "C09"
 THEOREM_FILE = "Props/C09.v"
 EXTRA_THEOREM_FILES = ["Props/C09_src.v"]     # source tie: translated source = model (DESIGN 5.1b)
+EXTRA_THEOREM_FILES.append("Props/C09_code.v")     # (CODA) code-level theorems: the property about the regenerated definitions
 RULE = ("cidr_partition and cidr_exclude on pairs (T, E) of IPNetwork objects of one family: exhaustively every "
         "aligned T x every aligned E inside the small arenas of harness/gens.py (E nested at every depth and offset, "
         "equal, supernet, sibling, adjacent, far; arenas at the bottom and top of both address spaces), host-bit "
